@@ -10,6 +10,12 @@ def _lazy(mod, fn):
 
 
 CHECKS = {
+    "C01": _lazy("resolve", "run_c01"),
+    "C02": _lazy("resolve", "run_c02"),
+    "C03": _lazy("resolve", "run_c03"),
+    "C09": _lazy("resolve", "run_c09"),
+    "C10": _lazy("resolve", "run_c10"),
+    "C11": _lazy("resolve", "run_c11"),
     "C04": _lazy("graph", "run_c04"),
     "C05": _lazy("graph", "run_c05"),
     "C13": _lazy("frag", "run_c13"),
